@@ -398,6 +398,25 @@ def fixed_witnesses(ctx):
     return viol
 
 
+def finding_witnesses(ctx):
+    """replay the witnesses of the known findings: while the defect is present the finding is reported"""
+    for f in ctx.known.get('findings', []):
+        w = f.get('witness') or {}
+        if 'type' not in w or 'value' not in w:
+            continue
+        ok, T = lib.call(match_type, w['type'])
+        if not ok:
+            continue
+        ok, obj = lib.call(T.from_micheline_value, copy.deepcopy(w['value']))
+        if not ok:
+            continue
+        ctx.case(('finding', json.dumps(w)), kind='known-finding-witness')
+        for mode in ([w['mode']] if w.get('mode') else list(G.MODES)):
+            ok2, back = lib.call(lambda: T.from_micheline_value(obj.to_micheline_value(mode)))
+            if not ok2 or not (back == obj):
+                ctx.known_hit(f)
+
+
 def corpus(ctx):
     items = []
     for p in sorted(glob.glob(os.path.join(lib.VERIF, 'corpus', PROP, '*.json'))):
@@ -416,13 +435,14 @@ def run(ctx: lib.Ctx) -> None:
                 'a list of near-valid timestamp strings. non-trivial = value with >= 3 constructors (or any malformed input); distinct = distinct (type, value[, mode])')
     viols = []
     viols += fixed_witnesses(ctx)
+    finding_witnesses(ctx)
     bads = []
 
     tv, ts_jobs = timestamp_cases(ctx, rng, ctx.n(150, 2000))
     viols += tv
     tb = []
 
-    nvals = ctx.n(220, 2500)
+    nvals = ctx.n(220, 2000)
     per_batch = 220 if not ctx.thorough else 1000
     done = 0
     # corpus first
